@@ -232,7 +232,12 @@ impl Check for C03 {
         "C03"
     }
     fn profiles(&self) -> Vec<ProfileSpec> {
-        vec![ProfileSpec { name: "geometry", quick: 50_000, thorough: 3_750_000 }]
+        vec![
+            ProfileSpec { name: "geometry", quick: 50_000, thorough: 3_750_000 },
+            // lengths that cannot be downloaded here (several GiB): what the client believes each
+            // piece to be long
+            ProfileSpec { name: "phantom-piece", quick: 1500, thorough: 100_000 },
+        ]
     }
     fn rule(&self) -> &'static str {
         "profile geometry: one honest seeder, no faults; piece length 1..600 (and special values) x 1-8 files with zero-length files, files inside one piece, boundaries on/off piece edges, short/full last piece, single/multi layout; end-to-end through the real download and the real extractor. Non-trivial: extraction ran. Distinct: distinct vectors of per-file classes (start aligned, end aligned, pieces spanned 0/1/2+, zero length) x interleaving hash."
@@ -252,6 +257,35 @@ impl Check for C03 {
         vd.class = geometry_class(v.plan);
         let t = &v.out.torrent;
         let last_seq = v.out.entries.last().map(|e| e.seq).unwrap_or(0);
+        if v.plan.profile == "phantom-piece" {
+            // the partition half of the property: every piece the client sets out to fetch has the
+            // length the geometry gives it (content cannot be served at these sizes)
+            let g = &v.plan.geometry;
+            vd.class = hash_of(&(g.piece_len, g.total(), g.files.len()));
+            for e in &v.out.entries {
+                if let Ev::Assigned { index, len, addr } = &e.ev {
+                    vd.nontrivial = true;
+                    if *index + 1 == g.pieces() {
+                        vd.probe("last_piece_assigned");
+                    }
+                    if g.total() >= 1 << 32 {
+                        vd.probe("total_beyond_32_bits");
+                    }
+                    if *index >= g.pieces() || *len != g.piece_len_of(*index) {
+                        vd.fail(
+                            "C03",
+                            "C03.piece-length",
+                            format!("{} is asked for piece {} as {} bytes; piece length {} and total {} make it {} bytes", addr, index, len, g.piece_len, g.total(), g.piece_len_of((*index).min(g.pieces() - 1))),
+                            e.seq,
+                        );
+                    }
+                }
+            }
+            for (m, l) in &v.out.panics {
+                vd.fail("C03", "C03.panic", format!("{:?} at {}", m, l), last_seq);
+            }
+            return vd;
+        }
         if let Some((m, l, who)) = first_panic(v) {
             if who == "C03" {
                 vd.fail("C03", "C03.panic", format!("{:?} at {}", m, l), last_seq);
